@@ -2,7 +2,10 @@
 
 package certificate
 
-import "sync"
+import (
+	"sync"
+	"time"
+)
 
 // C20.d: the certificate pool under concurrent use. The gossip handler adds single commits while the
 // consensus goroutine selects / upgrades (broadcastCertificate), cleans up, and the generator reads a
@@ -25,8 +28,15 @@ func zzH_C20_certificate_pool_concurrent(t *zzT) {
 	maint := t.Choice("maintenance", 3)
 	var wg sync.WaitGroup
 	wg.Add(3)
-	go func() { defer wg.Done(); p.Add(c1) }()
-	go func() { defer wg.Done(); p.Add(c2) }()
+	// natively the interleaving cannot be steered: the clean-up's checker is slow (it reads the database on a
+	// real node) and the adders arrive while it runs
+	nativeDelay := func(d time.Duration) {
+		if !t.Symbolic() && maint == 1 {
+			time.Sleep(d)
+		}
+	}
+	go func() { defer wg.Done(); nativeDelay(2 * time.Millisecond); p.Add(c1) }()
+	go func() { defer wg.Done(); nativeDelay(2 * time.Millisecond); p.Add(c2) }()
 	go func() {
 		defer wg.Done()
 		switch maint {
@@ -34,7 +44,7 @@ func zzH_C20_certificate_pool_concurrent(t *zzT) {
 			sel := p.Select(200, 2)
 			p.Upgrade(sel)
 		case 1:
-			p.Cleanup(func(h uint32) bool { return h > cut })
+			p.Cleanup(func(h uint32) bool { nativeDelay(6 * time.Millisecond); return h > cut })
 		default:
 			_ = p.Get(5)
 		}
